@@ -21,7 +21,7 @@ LEVEL = ("structural clauses (the bytes httpx sends are not decided): wire names
          "between path template and path parameters can only end in an error; generated locals "
          "defined under guards implied by every use (truth tables); body-type table exhaustive and consistent with httpx keyword "
          "names, Content-Type from the document's own key; the model of a multipart body is flagged for to_multipart, registered, and the "
-         "flag never lowered; optional arguments guarded; header values converted to str for every non-str kind allowed in headers (what "
+         "flag never lowered; optional arguments guarded; a query parameter is stored under its wire name or spread into its fields, never both; header values converted to str for every non-str kind allowed in headers (what "
          "transform_header writes is a str on every path and is what header_params stores); the query filter drops UNSET and nothing but UNSET / None; sync/async variants equal as token "
          "streams; security, the credential header overwritten before both httpx clients are built; parameter identity is (name, location); "
          "whoever hands on a parameter's schema with a name / location hands on that parameter's own.")
@@ -96,14 +96,18 @@ class _NeedAtom(Exception):
         self.atom = atom
 
 
-class _Piece:
-    __slots__ = ("kind", "text", "node", "args")
+_NO: Any = object()      # no value: not an expression whose value the template spells out itself
 
-    def __init__(self, kind: str, text: str, node: Any = None, args: tuple = ()):
+
+class _Piece:
+    __slots__ = ("kind", "text", "node", "args", "value")
+
+    def __init__(self, kind: str, text: str, node: Any = None, args: tuple = (), value: Any = _NO):
         self.kind = kind      # t: literal text | h: hole
         self.text = text      # the text, or the (canonical) text of the expression
         self.node = node      # the expression (holes), the constant (text written from a non-string constant)
         self.args = args      # holes that are calls: the pieces of every argument
+        self.value = value    # holes that print no text of their own but have a value the template spells out: a list, a table
 
     def __repr__(self) -> str:
         return self.text if self.kind == "t" else "‹" + self.text + "›"
@@ -115,12 +119,139 @@ class _Path:
 
     PASS_FILTERS = ("indent", "trim", "safe", "string")
 
-    def __init__(self, ti: Any, env: dict[str, bool], known: Any = None, max_depth: int = 4):
+    def __init__(self, ti: Any, env: dict[str, bool], known: Any = None, max_depth: int = 4, whole: bool = False):
         self.ti = ti
         self.env = env
         self.known = known
         self.max_depth = max_depth
         self.stack: list[str] = []
+        # whole: what is rendered is a whole template, laid out as Jinja lays it out - its top-level `set` variables are seen by its
+        # macros (globals), `indent` indents
+        self.whole = whole
+        self.globals: dict[str, list[_Piece]] = {}
+
+    # -- values the template spells out itself -----------------------------------------------------------------------------------
+    def const(self, e: nodes.Node, vars_: dict, subst: dict) -> Any:
+        """the value of an expression built from literals alone: constants, lists / tuples / dicts of them, names bound to such values
+        (`set`, the variable of an unrolled loop, `loop.first` ...), attribute and item access into them, `~` / `+`, not / and / or,
+        comparisons, conditional expressions, |length.  _NO: anything else.  A table of texts and a loop over it write what the texts
+        written out one by one write."""
+        c = lambda x: self.const(x, vars_, subst)
+        if isinstance(e, nodes.Const):
+            return e.value
+        if isinstance(e, nodes.TemplateData):
+            return e.data
+        if isinstance(e, (nodes.List, nodes.Tuple)):
+            vs = [c(x) for x in e.items]
+            return _NO if any(v is _NO for v in vs) else vs
+        if isinstance(e, nodes.Dict):
+            out: dict = {}
+            for p in e.items:
+                k, v = c(p.key), c(p.value)
+                if k is _NO or v is _NO or isinstance(k, (list, dict)):
+                    return _NO
+                out[k] = v
+            return out
+        if isinstance(e, nodes.Name):
+            ps = vars_.get(e.name)
+            if ps is None:
+                return _NO
+            if len(ps) == 1 and ps[0].value is not _NO:
+                return ps[0].value
+            if len(ps) == 1 and ps[0].kind == "t" and isinstance(ps[0].node, nodes.Const):
+                return ps[0].node.value
+            return "".join(p.text for p in ps) if all(p.kind == "t" for p in ps) else _NO
+        if isinstance(e, nodes.Getattr):
+            v = c(e.node)
+            return v[e.attr] if isinstance(v, dict) and e.attr in v else _NO
+        if isinstance(e, nodes.Getitem):
+            v, k = c(e.node), c(e.arg)
+            if v is _NO or k is _NO:
+                return _NO
+            try:
+                return v[k]
+            except (KeyError, IndexError, TypeError):
+                return _NO
+        if isinstance(e, nodes.Concat):
+            vs = [c(x) for x in e.nodes]
+            return _NO if any(v is _NO or isinstance(v, (list, dict)) for v in vs) else "".join(str(v) for v in vs)
+        if isinstance(e, nodes.Add):
+            a, b = c(e.left), c(e.right)
+            if a is _NO or b is _NO or type(a) is not type(b) or not isinstance(a, (str, list, int)) or isinstance(a, bool):
+                return _NO
+            return a + b
+        if isinstance(e, nodes.Not):
+            v = c(e.node)
+            return _NO if v is _NO else not v
+        if isinstance(e, (nodes.And, nodes.Or)):
+            a = c(e.left)
+            if a is _NO:
+                return _NO
+            return a if bool(a) != isinstance(e, nodes.And) else c(e.right)
+        if isinstance(e, nodes.CondExpr):
+            t = c(e.test)
+            if t is _NO:
+                return _NO
+            return c(e.expr1) if t else c(e.expr2) if e.expr2 is not None else ""
+        if isinstance(e, nodes.Compare) and len(e.ops) == 1:
+            a, b = c(e.expr), c(e.ops[0].expr)
+            ops = {"eq": lambda: a == b, "ne": lambda: a != b, "in": lambda: a in b, "notin": lambda: a not in b, "lt": lambda: a < b,
+                   "lteq": lambda: a <= b, "gt": lambda: a > b, "gteq": lambda: a >= b}
+            if a is _NO or b is _NO or e.ops[0].op not in ops:
+                return _NO
+            try:
+                return ops[e.ops[0].op]()
+            except TypeError:
+                return _NO
+        if isinstance(e, nodes.Filter) and e.node is not None and e.name in ("length", "count") and not e.args and not e.kwargs:
+            v = c(e.node)
+            return len(v) if isinstance(v, (str, list, dict)) else _NO
+        return _NO
+
+    @staticmethod
+    def pieces_of(v: Any, text: str, node: Any = None) -> list[_Piece]:
+        """what a value the template spells out prints as"""
+        if isinstance(v, str):
+            return [_Piece("t", v)]
+        if v is None or isinstance(v, (bool, int, float)):
+            return [_Piece("t", str(v), nodes.Const(v))]
+        return [_Piece("h", text, node, (), v)]
+
+    def bind(self, target: nodes.Node, v: Any, vars_: dict) -> bool:
+        """the target of a loop bound to one item of a list the template spells out"""
+        if isinstance(target, nodes.Name):
+            vars_[target.name] = self.pieces_of(v, target.name)
+            return True
+        if isinstance(target, nodes.Tuple) and isinstance(v, list) and len(v) == len(target.items):
+            return all([self.bind(t, x, vars_) for t, x in zip(target.items, v)])
+        return False
+
+    @staticmethod
+    def indented(ps: list[_Piece], width: int, first: bool) -> list[_Piece]:
+        """|indent: every line but the first (unless `first`) and the blank ones moved right, the last line break dropped"""
+        pad = " " * width
+        out: list[_Piece] = []
+        pending = first
+        for p in ps:
+            if p.kind != "t":
+                if pending:
+                    out.append(_Piece("t", pad))
+                    pending = False
+                out.append(p)
+                continue
+            res = ""
+            for ch in p.text:
+                if ch != "\n" and pending:
+                    res += pad
+                pending = ch == "\n"
+                res += ch
+            out.append(_Piece("t", res, p.node))
+        for i in range(len(out) - 1, -1, -1):
+            if out[i].kind != "t" or out[i].text:
+                if out[i].kind == "t" and out[i].text.endswith("\n"):
+                    out[i] = _Piece("t", out[i].text[:-1], out[i].node)
+                break
+        return out
 
     # -- texts ---------------------------------------------------------------------------------------------------------------
     def text_of(self, e: nodes.Node, vars_: dict, subst: dict[str, str], flat: bool = False) -> str:
@@ -135,6 +266,9 @@ class _Path:
 
     # -- tests ---------------------------------------------------------------------------------------------------------------
     def decide(self, t: nodes.Node, vars_: dict, subst: dict) -> bool:
+        v = self.const(t, vars_, subst)
+        if v is not _NO:
+            return bool(v)
         if isinstance(t, nodes.And):
             return self.decide(t.left, vars_, subst) and self.decide(t.right, vars_, subst)
         if isinstance(t, nodes.Or):
@@ -183,14 +317,38 @@ class _Path:
                 else:
                     out += self.block(n.else_, vars_, subst)
             elif isinstance(n, nodes.For):
-                # one element (that passes the loop's filter)
-                out += self.block(n.body, dict(vars_), subst)
+                seq = self.const(n.iter, vars_, subst)
+                seq = list(seq) if isinstance(seq, dict) else seq
+                rounds: list[dict] | None = [] if isinstance(seq, list) else None
+                for x in seq if rounds is not None else []:
+                    v2 = dict(vars_)
+                    if not self.bind(n.target, x, v2):
+                        rounds = None
+                        break
+                    if n.test is None or self.decide(n.test, v2, subst):
+                        rounds.append(v2)
+                if rounds is None:
+                    # one element (that passes the loop's filter)
+                    out += self.block(n.body, dict(vars_), subst)
+                    continue
+                # a list the template spells out: one round per item, in order
+                for i, v2 in enumerate(rounds):
+                    k = len(rounds)
+                    v2["loop"] = [_Piece("h", "loop", None, (), {"first": i == 0, "last": i == k - 1, "index": i + 1, "index0": i, "length": k,
+                                                                 "revindex": k - i, "revindex0": k - i - 1})]
+                    out += self.block(n.body, v2, subst)
+                if not rounds:
+                    out += self.block(n.else_, dict(vars_), subst)
             elif isinstance(n, nodes.Assign):
                 if isinstance(n.target, nodes.Name):
                     vars_[n.target.name] = self.expr(n.node, vars_, subst)
             elif isinstance(n, nodes.AssignBlock):
                 if isinstance(n.target, nodes.Name):
                     vars_[n.target.name] = self.block(n.body, dict(vars_), subst)
+            elif isinstance(n, nodes.CallBlock) and isinstance(n.call.node, nodes.Name) and n.call.node.name not in vars_ \
+                    and n.call.node.name in self.ti.macros and n.call.node.name not in self.stack and len(self.stack) < self.max_depth:
+                # {% call m(...) %}body{% endcall %}: the macro, with `caller()` writing the body (rendered where the call is)
+                out += self.inline(self.ti.macros[n.call.node.name], n.call, vars_, subst, caller=self.block(n.body, dict(vars_), subst))
             elif isinstance(n, (nodes.With, nodes.Scope, nodes.CallBlock, nodes.FilterBlock)):
                 out += self.block(getattr(n, "body", []), dict(vars_), subst)
         return out
@@ -203,6 +361,10 @@ class _Path:
             return [_Piece("t", e.value)] if isinstance(e.value, str) else [_Piece("t", str(e.value), e)]
         if isinstance(e, nodes.Name) and e.name in vars_:
             return list(vars_[e.name])
+        if not isinstance(e, (nodes.Name, nodes.Call)):
+            v = self.const(e, vars_, subst)
+            if v is not _NO:
+                return self.pieces_of(v, self.text_of(e, vars_, subst), e)
         if isinstance(e, (nodes.Add, nodes.Concat)):
             parts = [e.left, e.right] if isinstance(e, nodes.Add) else list(e.nodes)
             ps = [p for x in parts for p in self.expr(x, vars_, subst)]
@@ -213,8 +375,18 @@ class _Path:
                 return self.expr(e.expr1, vars_, subst)
             return self.expr(e.expr2, vars_, subst) if e.expr2 is not None else []
         if isinstance(e, nodes.Filter) and e.node is not None and e.name in self.PASS_FILTERS:
-            return self.expr(e.node, vars_, subst)
+            ps = self.expr(e.node, vars_, subst)
+            if self.whole and e.name == "indent":
+                kw = {k.key: self.const(k.value, vars_, subst) for k in e.kwargs}
+                pos = [self.const(a, vars_, subst) for a in e.args]
+                width = pos[0] if pos else kw.get("width", 4)
+                first = pos[1] if len(pos) > 1 else kw.get("first", False)
+                if isinstance(width, int) and first is not _NO:
+                    ps = self.indented(ps, width, bool(first))
+            return ps
         if isinstance(e, nodes.Call):
+            if isinstance(e.node, nodes.Name) and e.node.name == "caller" and "caller" in vars_ and not e.args and not e.kwargs:
+                return list(vars_["caller"])
             m = self.ti.macros.get(e.node.name) if isinstance(e.node, nodes.Name) and e.node.name not in vars_ else None
             if m is not None and e.node.name not in self.stack and len(self.stack) < self.max_depth:
                 return self.inline(m, e, vars_, subst)
@@ -222,23 +394,26 @@ class _Path:
             return [_Piece("h", self.text_of(e, vars_, subst), e, args)]
         return [_Piece("h", self.text_of(e, vars_, subst), e)]
 
-    def inline(self, m: nodes.Macro, call: nodes.Call, vars_: dict, subst: dict) -> list[_Piece]:
+    def inline(self, m: nodes.Macro, call: nodes.Call, vars_: dict, subst: dict, caller: list[_Piece] | None = None) -> list[_Piece]:
         names = [a.name for a in m.args]
         bound: dict[str, list[_Piece]] = {}
         for a, d in zip(names[len(names) - len(m.defaults):], m.defaults):
             bound[a] = self.expr(d, {}, {})
         for nm, a in [*zip(names, call.args), *[(k.key, k.value) for k in call.kwargs if k.key in names]]:
             bound[nm] = self.expr(a, vars_, subst)
-        vars2: dict[str, list[_Piece]] = {}
+        vars2: dict[str, list[_Piece]] = dict(self.globals) if self.whole else {}
         subst2: dict[str, str] = {}
         for nm, ps in bound.items():
             # an argument without a value here stays what the call site wrote (tests and holes of the callee then read like the
             # caller's); text and mixtures are values of the parameter
-            if len(ps) == 1 and ps[0].kind == "h" and not ps[0].args:
+            if len(ps) == 1 and ps[0].kind == "h" and not ps[0].args and ps[0].value is _NO:
                 subst2[nm] = ps[0].text
+                vars2.pop(nm, None)
             else:
                 # (the expressions behind the holes belong to the caller: the callee sees their texts)
-                vars2[nm] = [_Piece("h", p.text, None, p.args) if p.kind == "h" else p for p in ps]
+                vars2[nm] = [_Piece("h", p.text, None, p.args, p.value) if p.kind == "h" else p for p in ps]
+        # (`caller`: the body of the call block the macro is used with - nothing, which is false, in a plain call)
+        vars2["caller"] = list(caller) if caller is not None else []
         self.stack.append(m.name)
         try:
             return self.block(m.body, vars2, subst2)
@@ -246,14 +421,16 @@ class _Path:
             self.stack.pop()
 
 
-def _paths(ti: Any, macro: nodes.Macro, known: Any = None, limit: int = 512) -> list[tuple[dict[str, bool], list[_Piece]]]:
-    """every path through the macro (its own parameters without a value): [(atoms decided on the way, what is written)]"""
+def _paths(ti: Any, macro: nodes.Macro, known: Any = None, limit: int = 512, whole: bool = False) -> list[tuple[dict[str, bool], list[_Piece]]]:
+    """every path through the macro (its own parameters without a value): [(atoms decided on the way, what is written)];
+    whole: `macro` is the top level of the template (see _Path)"""
     out = []
     todo: list[dict[str, bool]] = [{}]
     while todo:
         env = todo.pop()
         try:
-            out.append((env, _Path(ti, env, known).block(macro.body, {}, {})))
+            walker = _Path(ti, env, known, whole=whole)
+            out.append((env, walker.block(macro.body, walker.globals if whole else {}, {})))
         except _NeedAtom as need:
             todo += [{**env, need.atom: True}, {**env, need.atom: False}]
         if len(out) + len(todo) > limit:
@@ -819,21 +996,33 @@ def _py_of(ps: list[_Piece], mode: str) -> tuple[ast.AST | None, dict[str, _Piec
         return None, holes
 
 
-def _generated_class(jx: Any, template: str, cls: str) -> ast.ClassDef | None:
-    """the class as the template writes it (skeleton: macros inlined with the arguments of their call sites, holes as placeholders)"""
-    text = "\n".join(to_lines(SkelWalker(jx, frozenset()).walk_template(template))[0])
-    text = re.sub(HOLE + r"(\d+)" + HOLE, r"H_\1", text)
-    text = re.sub(OPQ + r"(\d+)" + OPQ, r"O_\1", text)
-    m = re.search(rf"^class {cls}\b.*?(?=^(?:class |def |async def |@)|\Z)", text, re.M | re.S)
-    for cand in (text, m.group(0) if m else ""):
-        try:
-            tree = ast.parse(cand)
-        except (SyntaxError, ValueError):
-            continue
-        for n in tree.body:
-            if isinstance(n, ast.ClassDef) and n.name == cls:
-                return n
-    return None
+def _generated_classes(ti: Any, cls: str) -> list[tuple[dict, ast.ClassDef | None]]:
+    """the class as the template writes it, path by path: [(atoms decided on the way, the class or None when it cannot be read)].  The
+    tests of the template are decided one way or the other, macros are inlined with the arguments of their call sites, the lists and
+    tables the template spells out itself are evaluated and the loops over them unrolled (a method written once per entry of a table
+    is the methods written out one by one); every other expression is a placeholder identifier"""
+    class _Whole:
+        name = "<template>"
+        body = ti.tree.body
+
+    out: list[tuple[dict, ast.ClassDef | None]] = []
+    for env, ps in _paths(ti, _Whole, limit=256, whole=True):
+        text, k = "", 0
+        for p in ps:
+            text += p.text if p.kind == "t" else f"H_{k}_"
+            k += p.kind != "t"
+        m = re.search(rf"^class {cls}\b.*?(?=^(?:class |def |async def |@)|\Z)", text, re.M | re.S)
+        found = None
+        for cand in (text, m.group(0) if m else ""):
+            try:
+                tree = ast.parse(cand)
+            except (SyntaxError, ValueError):
+                continue
+            found = next((n for n in tree.body if isinstance(n, ast.ClassDef) and n.name == cls), None)
+            if found is not None:
+                break
+        out.append((env, found))
+    return out
 
 
 def _location_set(ix: Any, m: Any, e: ast.AST | None, depth: int = 8) -> set[str] | None:
@@ -1328,6 +1517,10 @@ def run(rep: Report, ctx: Any) -> str:
     rep.rule("R03.4", "optional arguments are not sent and set ones are: the query store is filtered, whenever it is built, by conditions "
                       "that drop UNSET and keep every value that is neither UNSET nor None; guarded_statement emits the statement without "
                       "its Unset test only for required properties (truth table); header stores go through guarded_statement")
+    rep.rule("R03.13", "a query parameter goes into the query once: on every path through one round of query_params (the macros of the file "
+                       "it calls inlined; destinations and statements handed to other macros read as what they say) the store `params` is "
+                       "either keyed by the parameter's wire name or the parameter is spread into it (`params.update(...)`: an object "
+                       "sent as its fields) - never both (its own key would be sent next to its fields), never neither (it would not be sent)")
     rep.rule("R03.5", "every property class that allows the header location and whose Python type is not str defines transform_header; on "
                       "every path through it transform_header writes one expression that is computed from its argument and is a str "
                       "whatever the value (str(...), an f-string, a str literal per arm, ...); on every path through header_params on which "
@@ -1853,6 +2046,36 @@ def run(rep: Report, ctx: Any) -> str:
                   f"the query filter `{norm(c)}` is not decided by identity with UNSET / None alone: a set argument (False, 0, \"\") can be dropped",
                   where=f"{PKG}/templates/{em.name}:{fr.line}", lhs=norm(c), rhs="true for every value that is neither UNSET nor None")
 
+    # ---- R03.13 ------------------------------------------------------------------------------------------------------------
+    # what one round of the loop of query_params does with the store, path by path (the macros of the file it calls inlined; what is
+    # handed to a macro of another file - a destination to write to, a statement to guard - is text the path writes as well)
+    STORE = "params"
+    n_q = 0
+    twice, never = [], []
+    for env, ps in _paths(em, qp):
+        seqs = [ps] + [a for h in _holes(ps) for a in h.args]
+        keyed = spread = mentioned = 0
+        for seq in seqs:
+            text = _written(seq)
+            hs = [p for p in seq if p.kind == "h"]
+            mentioned += bool(re.search(rf"(?<![\w.\"']){STORE}\b", text))
+            spread += len(re.findall(rf"(?<![\w.\"']){STORE}\.update\(", text))
+            for m in re.finditer(rf"(?<![\w.\"']){STORE}\[\s*\"{HOLE}\"\s*\]", text):
+                keyed += _flat(hs[text[:m.start()].count(HOLE)].text).endswith(".name")
+        if not mentioned:
+            continue
+        n_q += 1
+        free = {k: v for k, v in env.items() if not _coll_key(k)}
+        if keyed and spread:
+            twice.append(free)
+        elif not keyed and not spread:
+            never.append(free)
+    rep.check(n_q > 0 and not twice and not never, "R03.13", "query_params::stored-once",
+              (f"a query parameter is put into `{STORE}` under its own wire name and spread into it as well (e.g. when {twice[:1]}): its own key is "
+               "sent next to its fields" if twice else f"a query parameter is neither stored under its wire name nor spread into `{STORE}` "
+               f"(e.g. when {never[:1]}): it is never sent"), where=f"{PKG}/templates/{em.name}:{qp.lineno}",
+              lhs={"both": twice[:2], "neither": never[:2]}, rhs="exactly one of: keyed by <parameter>.name / <store>.update(...)")
+
     # ---- R03.5 -------------------------------------------------------------------------------------------------------------
     n_h = n_th = 0
     for c in ix.property_classes():
@@ -1986,8 +2209,8 @@ def run(rep: Report, ctx: Any) -> str:
               "a secured operation does not demand an AuthenticatedClient", where=f"{PKG}/templates/{em.name}:{arg.lineno}",
               lhs=sorted(set(secured)), rhs=["AuthenticatedClient"])
     rep.require("client.py.jinja" in jx.templates, "client.py.jinja")
-    ac = _generated_class(jx, "client.py.jinja", "AuthenticatedClient")
-    rep.require(ac is not None, "class AuthenticatedClient as written by client.py.jinja")
+    acs = _generated_classes(jx.templates["client.py.jinja"], "AuthenticatedClient")
+    rep.require(bool(acs) and all(c is not None for _, c in acs), "class AuthenticatedClient as written by client.py.jinja")
 
     def _overwrites_credential(x: Any, headers: str) -> bool:
         """x unconditionally replaces headers[self.auth_header_name] by a value read from self.token (setdefault / a test for presence would
@@ -2007,7 +2230,7 @@ def run(rep: Report, ctx: Any) -> str:
         return False
 
     built: dict[str, bool] = {}
-    for m in ac.body:
+    for m in [m for _, ac in acs for m in ac.body]:
         if not isinstance(m, (ast.FunctionDef, ast.AsyncFunctionDef)):
             continue
         for c in calls_in(m):
